@@ -295,3 +295,14 @@ proof fn lemma_lookup_decides(t: &RawTableInner, h: u64, f: spec_fn(usize) -> bo
         }
     }
 }
+
+// vacuity canaries (each MUST be reported as failed): the hypotheses of the lemmas above are satisfiable
+proof fn canary_reach(t: &RawTableInner, i: int, h: u64, hs: Map<int, u64>)
+    requires t.shape(), t.mirrored(), 0 <= i < t.nb(), t.ctrl@[i] < 0x80u8, t.f2(hs), t.reach(i, h), t.nb() >= Group::WIDTH,
+    ensures false {}
+proof fn canary_gap(t: &RawTableInner, index: int, lz: int, tz: int)
+    requires t.shape(), t.mirrored(), t.nb() >= Group::WIDTH, 0 <= index < t.nb(), t.ctrl@[index] < 0x80u8, t.gap_witness(index, lz, tz),
+    ensures false {}
+proof fn canary_none(t: &RawTableInner, h: u64, kk: nat, f: spec_fn(usize) -> bool, hs: Map<int, u64>)
+    requires t.shape(), t.mirrored(), t.f2(hs), t.none_witness(h as usize as int, kk, spec_tag(h), f),
+    ensures false {}
